@@ -2,8 +2,10 @@ package rules
 
 import (
 	"go/ast"
+	"go/constant"
 	"go/token"
 	"go/types"
+	"strconv"
 	"strings"
 
 	"verif/checker/internal/astx"
@@ -199,7 +201,7 @@ func c13(c *Ctx) {
 		return
 	}
 	r.Explanation = "Gate dominance: every statement in client-reachable code that performs a privileged state change is located by what it writes (channel modes/key/bans/operator bits/topic, another user's membership, invitations, another user's modes, killing another session, the ban list, network-wide notices, operator and server status, membership of an existing channel) and the corresponding privilege test must hold on every path to it (clauses derived from the dominating branch conditions, with De Morgan and local boolean definitions resolved). For JOIN the invite/captcha/ban/key tests are path rules over the else-if chain. Decides the code shape; whether the privilege bits themselves are right at that moment is history (C14 keeps them consistent)."
-	r.Rules = []string{"C13.E1 channel settings need chanop|oper and membership", "C13.E2 topic needs membership and (!+t | chanop)", "C13.E3 kick needs chanop", "C13.E4 invite", "C13.E5 other user's modes need oper", "C13.E6 oper-only effects", "C13.E7 becoming operator", "C13.E8 becoming a server link", "C13.E9 joining an existing channel", "C13.E10 services commands only from server links", "C13.E11 captcha verification"}
+	r.Rules = []string{"C13.E1 channel settings need chanop|oper and membership", "C13.E2 topic needs membership and (!+t | chanop)", "C13.E3 kick needs chanop", "C13.E4 invite", "C13.E5 other user's modes need oper", "C13.E6 oper-only effects", "C13.E7 becoming operator", "C13.E8 becoming a server link", "C13.E9 joining an existing channel", "C13.E10 services commands only from server links", "C13.E11 captcha verification", "C13.E12 a ban that is set is stored"}
 
 	// helper summary: functions with a *channel parameter that (transitively) write channel fields of it
 	writesChanParam := map[*load.FuncInfo]int{} // function -> parameter index
@@ -406,6 +408,8 @@ func c13(c *Ctx) {
 	c.c13AuthOper(f)
 	c.c13ServerOnly(f)
 	c.c13Captcha(f)
+	c.c13BanStored()
+	c.c13BanReference()
 }
 
 // freshChannel: at vertex v, ch was created by this function on the edge where the look-up in i.channels failed.
@@ -1305,4 +1309,146 @@ func (c *Ctx) c13Captcha(f *ircFacts) {
 		}
 	}
 	r.Check(usesSecret, "C13.E11", fi.Name(), "MAC keyed with the network secret", c.P.Pos(fi.Node().Pos()), "hmac.New(sha256.New, Config.CaptchaHMACSecret)", "the captcha MAC is not keyed with the configured network secret")
+}
+
+// c13BanStored (E12): "a channel ban keeps a session out" presupposes that setting a ban puts it on the list: in ban(), every
+// successful return on the add edge has passed the append to channel.bans; banBoth applies the resolved-address form whenever
+// it differs.
+func (c *Ctx) c13BanStored() {
+	r := c.R
+	fi := c.MustFunc("ircserver.ban")
+	bansF := c.P.Field("ircserver", "channel", "bans")
+	if fi == nil || fi.Body() == nil || bansF == nil {
+		return
+	}
+	info := fi.Info()
+	g := c.Graph(fi)
+	var addParam types.Object
+	sig := fi.Obj.Type().(*types.Signature)
+	for k := 0; k < sig.Params().Len(); k++ {
+		if b, ok := sig.Params().At(k).Type().Underlying().(*types.Basic); ok && b.Kind() == types.Bool {
+			addParam = sig.Params().At(k)
+		}
+	}
+	if addParam == nil {
+		r.Break("C13.E12: ban() has no boolean parameter")
+		return
+	}
+	isAppend := func(v int) bool {
+		as, ok := g.V[v].Node.(*ast.AssignStmt)
+		if !ok || len(as.Lhs) != 1 || len(as.Rhs) != 1 {
+			return false
+		}
+		se, ok := ast.Unparen(as.Lhs[0]).(*ast.SelectorExpr)
+		if !ok || astx.FieldSel(info, se) != bansF {
+			return false
+		}
+		call, ok := ast.Unparen(as.Rhs[0]).(*ast.CallExpr)
+		return ok && astx.Builtin(info, call) == "append" && len(call.Args) >= 2 && astx.Same(info, call.Args[0], as.Lhs[0])
+	}
+	n := 0
+	for _, v := range g.V {
+		for _, e := range v.Succ {
+			id, ok := ast.Unparen(e.Cond).(*ast.Ident)
+			if e.Cond == nil || !ok || astx.Obj(info, id) != addParam || !e.Val {
+				continue
+			}
+			n++
+			reach := g.Reach(e.To, isAppend, nil)
+			bad := token.NoPos
+			for _, rv := range g.Returns() {
+				rs := rv.Node.(*ast.ReturnStmt)
+				if isAppend(e.To) || !reach[rv.ID] || len(rs.Results) != 1 {
+					continue
+				}
+				if rid, ok := ast.Unparen(rs.Results[0]).(*ast.Ident); ok && rid.Name == "nil" {
+					bad = rs.Pos()
+				}
+			}
+			pos := fi.Node().Pos()
+			if bad.IsValid() {
+				pos = bad
+			}
+			r.Check(!bad.IsValid(), "C13.E12", fi.Name(), "setting a ban appends it to the channel's ban list", c.P.Pos(pos), "every successful return on the add edge has passed the append",
+				"ban() can report success for a ban it did not store: banBoth sets the literal mask and the resolved-address form under the same mask, so a test like 'already on the list' swallows the address form and the banned person walks back in with a fresh session")
+		}
+	}
+	if n == 0 {
+		r.Break("C13.E12: no branch on the add parameter found in ban()")
+	}
+}
+
+// c13BanReference (E12b): the session reference in a ban mask ("robust/0x<hex id>") is parsed the way the cloak is written:
+// what reaches strconv.ParseInt is the text behind the searched marker minus the skipped part, so with base 0 the skipped
+// part must leave exactly "0x" in front of the digits and with base 16 nothing. Decided from the constants in the code.
+func (c *Ctx) c13BanReference() {
+	r := c.R
+	fi := c.MustFunc("ircserver.(*IRCServer).resolveSessionToRemoteAddrLocked")
+	if fi == nil || fi.Body() == nil {
+		return
+	}
+	info := fi.Info()
+	constStr := func(e ast.Expr) (string, bool) {
+		tv, ok := info.Types[e]
+		if !ok || tv.Value == nil || tv.Value.Kind() != constant.String {
+			return "", false
+		}
+		return constant.StringVal(tv.Value), true
+	}
+	needle, idxObj := "", types.Object(nil)
+	ast.Inspect(fi.Body(), func(n ast.Node) bool {
+		as, ok := n.(*ast.AssignStmt)
+		if !ok || len(as.Lhs) != 1 || len(as.Rhs) != 1 {
+			return true
+		}
+		call, ok := ast.Unparen(as.Rhs[0]).(*ast.CallExpr)
+		if !ok || len(call.Args) != 2 {
+			return true
+		}
+		if fn := astx.Callee(info, call); fn != nil && fn.Pkg() != nil && fn.Pkg().Path() == "strings" && fn.Name() == "Index" {
+			if s, ok := constStr(call.Args[1]); ok {
+				if id, ok := as.Lhs[0].(*ast.Ident); ok {
+					needle, idxObj = s, astx.Obj(info, id)
+				}
+			}
+		}
+		return true
+	})
+	decided := false
+	for _, call := range astx.Calls(fi.Body(), false) {
+		fn := astx.Callee(info, call)
+		if fn == nil || fn.Pkg() == nil || fn.Pkg().Path() != "strconv" || (fn.Name() != "ParseInt" && fn.Name() != "ParseUint") || len(call.Args) != 3 {
+			continue
+		}
+		base, okB := astx.ConstInt(info, call.Args[1])
+		sl, okS := ast.Unparen(call.Args[0]).(*ast.SliceExpr)
+		if !okB || !okS || sl.Low == nil || sl.High != nil || idxObj == nil {
+			continue
+		}
+		be, ok := ast.Unparen(sl.Low).(*ast.BinaryExpr)
+		if !ok || be.Op != token.ADD {
+			continue
+		}
+		x, y := ast.Unparen(be.X), ast.Unparen(be.Y)
+		if id, ok := y.(*ast.Ident); ok && astx.Obj(info, id) == idxObj {
+			x, y = y, x
+		}
+		id, ok := x.(*ast.Ident)
+		if !ok || astx.Obj(info, id) != idxObj {
+			continue
+		}
+		off, ok := astx.ConstInt(info, y)
+		if !ok || off < 0 || int(off) > len(needle) {
+			continue
+		}
+		decided = true
+		rest := needle[off:]
+		good := base == 0 && (rest == "0x" || rest == "0X") || base == 16 && rest == ""
+		r.Check(good, "C13.E12", fi.Name(), "the session id in a ban mask is parsed as it is written (hexadecimal behind the marker)", c.P.Pos(call.Pos()),
+			"marker "+strconv.Quote(needle)+", skipped "+itoa(int(off))+" bytes, base "+itoa(int(base))+": digits are preceded by "+strconv.Quote(rest),
+			"the text handed to "+fn.Name()+" does not match the base it is parsed in (base 0 needs the 0x prefix kept, base 16 needs it skipped): the id never parses or names another session, the mask is stored unresolved and a ban by cloak no longer covers the person's address")
+	}
+	if !decided {
+		r.Assume("C13.E12", fi.Name(), "session reference parsing", c.P.Pos(fi.Node().Pos()), "shape not recognised (no strings.Index marker + ParseInt on the remainder): not decided")
+	}
 }
